@@ -134,7 +134,7 @@ func (c *Checker) Summary(fn *ssa.Function) *Summary {
 }
 
 func shortFn(w *World, fn *ssa.Function) string {
-	return strings.ReplaceAll(fn.String(), w.Pkg.PkgPath+".", "")
+	return strings.ReplaceAll(fnKey(fn), w.Pkg.PkgPath+".", "")
 }
 
 // anchor resolves a function by short name; an unresolved anchor is an
